@@ -57,6 +57,35 @@ const IPV4_MULTICAST_PORT: u16 = 5353;
 /// Service name.
 const SERVICE_NAME: &str = "_p2p._udp.local";
 
+/// Size of the DNS packet header.
+const HEADER_SIZE: usize = 12;
+
+/// Smallest encoding of a question: root name, type and class.
+const MIN_QUESTION_SIZE: usize = 5;
+
+/// Smallest encoding of a resource record: root name, type, class, TTL and data length.
+const MIN_RECORD_SIZE: usize = 11;
+
+/// Parse a received datagram.
+///
+/// The parser reserves memory for as many questions and records as the header announces before
+/// it reads them, so a header announcing more entries than the datagram can possibly hold (up to
+/// `u16::MAX` per section, several megabytes for a datagram of a few bytes) is refused first.
+/// Such a packet could not have been parsed anyway.
+fn parse_packet(datagram: &[u8]) -> Result<Packet<'_>, simple_dns::SimpleDnsError> {
+    if let Some(counts) = datagram.get(4..HEADER_SIZE) {
+        let count = |index: usize| u16::from_be_bytes([counts[index], counts[index + 1]]) as usize;
+        let announced =
+            count(0) * MIN_QUESTION_SIZE + (count(2) + count(4) + count(6)) * MIN_RECORD_SIZE;
+
+        if announced > datagram.len() - HEADER_SIZE {
+            return Err(simple_dns::SimpleDnsError::InvalidDnsPacket);
+        }
+    }
+
+    Packet::parse(datagram)
+}
+
 /// Events emitted by mDNS.
 // #[derive(Debug, Clone)]
 pub enum MdnsEvent {
@@ -314,7 +343,7 @@ impl Mdns {
                 },
 
                 result = socket.recv_from(&mut self.receive_buffer) => match result {
-                    Ok((nread, address)) => match Packet::parse(&self.receive_buffer[..nread]) {
+                    Ok((nread, address)) => match parse_packet(&self.receive_buffer[..nread]) {
                         Ok(packet) => match packet.has_flags(PacketFlag::RESPONSE) {
                             true => {
                                 let to_forward = self.on_inbound_response(packet).into_iter().filter_map(|address| {
@@ -360,6 +389,27 @@ impl Mdns {
 #[cfg(test)]
 mod tests {
     use super::*;
+
+    #[test]
+    fn header_announcing_more_records_than_fit_is_refused() {
+        // response header announcing 65535 answers and 65535 additional records, one real answer
+        let mut datagram = vec![0, 0, 0x84, 0, 0, 0, 0xff, 0xff, 0, 0, 0xff, 0xff];
+        datagram.extend([0, 0, 12, 0, 1, 0, 0, 0, 10, 0, 1, 0]);
+        assert!(parse_packet(&datagram).is_err());
+
+        // an honest packet is parsed as before
+        let mut packet = Packet::new_reply(7);
+        packet.answers.push(ResourceRecord::new(
+            Name::new_unchecked(SERVICE_NAME),
+            CLASS::IN,
+            360,
+            RData::PTR(PTR(Name::new_unchecked("peer"))),
+        ));
+        let bytes = packet.build_bytes_vec().unwrap();
+        assert_eq!(parse_packet(&bytes).unwrap().answers.len(), 1);
+        assert!(parse_packet(&bytes[..11]).is_err());
+        assert!(parse_packet(&[]).is_err());
+    }
     use crate::transport::manager::TransportManagerBuilder;
     use futures::StreamExt;
     use multiaddr::Protocol;
